@@ -273,9 +273,8 @@ class GlobalizedNewtonMethod(NewtonMethod):
         max_it = 30
 
         for it in range(max_it):
-            next_iterate = Iterate(
-                problem, params, iterate.x - dx, iterate.y - dy, iterate.eval
-            )
+            # Trial point is clipped to the variable bounds (like the final step)
+            next_iterate = StepResult(iterate, dx, dy, active_set=None).iterate
 
             next_func_value = self.func.value_at(next_iterate, self.rho)
             next_res_value = 0.5 * np.dot(next_func_value, next_func_value)
